@@ -18,7 +18,7 @@ func init() {
 		Fn: checkC06, Level: "exploration",
 		Rule: "bounded-exhaustive enumeration of report lists: every ordered tuple of n<=4 (quick) / n<=5 full + n=6 reduced (thorough) reporters over values {..01,..02,..0a,..0A,66-hex over-long} x powers {1,2,3,5,1e7,2^62 (median) | 1,2,3,5,1000 (mode)} with total < 2^63, i.e. all multisets in all arrival orders; the real WeightedMedian/WeightedMode are called and compared with the definition (exact integer arithmetic); for WeightedMode every key order of its frequency map is additionally forced through the map-order seam; a case is non-trivial when it has >=2 distinct values; distinct = distinct (multiset, function) pairs",
 		Assume:      []string{"values are compared numerically for median and as strings for mode (the implementation's notion of identity)", "mode powers are capped at 1e7 in the alphabet because the implementation loops `power` times"},
-		QuickBudget: 4 * time.Minute, ThoroughBudget: 15 * time.Minute,
+		QuickBudget: 10 * time.Minute, ThoroughBudget: 15 * time.Minute,
 	})
 }
 
